@@ -45,6 +45,12 @@ def _one(rel, spec, with_tests, tier):
         e["VF_NO_EVIDENCE"] = "1"
         e["PYTHONPATH"] = work
         e["PYTHONDONTWRITEBYTECODE"] = "1"
+        # changes that stage files in the system temp folder must not litter the real one; it stays on another file
+        # system than the scratch area (tmpfs), which some seeded changes need in order to show
+        tmpd = os.path.join("/var/tmp", os.path.basename(work) + "-tmp")
+        shutil.rmtree(tmpd, ignore_errors=True)
+        os.makedirs(tmpd)
+        e["TMPDIR"] = tmpd
         if with_tests:
             t = subprocess.run([env.PY, "-m", "pytest", "-q", "-x", "-p", "no:cacheprovider", "tests"], cwd=work, env=e, stdout=subprocess.PIPE, stderr=subprocess.STDOUT)
             out["tests"] = "pass" if t.returncode == 0 else "FAIL: " + t.stdout.decode()[-300:]
@@ -58,6 +64,7 @@ def _one(rel, spec, with_tests, tier):
                 out["results"][prop]["inconclusive"] = [l for l in txt.splitlines() if l.startswith("INCONCLUSIVE")][:2]
     finally:
         shutil.rmtree(work, ignore_errors=True)
+        shutil.rmtree(os.path.join("/var/tmp", os.path.basename(work) + "-tmp"), ignore_errors=True)
     return out
 
 
